@@ -149,6 +149,25 @@ class GeoInterp:
         if isinstance(e, ast.Name):
             if e.id == 'NotImplemented':
                 return NOTIMPL
+            # a local of the function being interpreted that the expansion left in place
+            # (`swap, negate_y, negate_x = TABLE[self]`): the definition whose path condition
+            # holds for these arguments
+            frames = getattr(self, '_frames', None)
+            if frames and e.id in frames[-1][0].defs and depth > 0:
+                w_, bound_, mod_ = frames[-1]
+                for kind_, payload_, _n, guard_, loops_ in w_.defs[e.id]:
+                    if kind_ not in ('value', 'unpack') or loops_:
+                        continue
+                    try:
+                        if not self.holds(strip_iter(guard_), bound_, mod_, w_, depth - 1):
+                            continue
+                    except (AnalysisError, GeoKeyError):
+                        continue
+                    if kind_ == 'value':
+                        return self.eval(payload_, bound_, mod_, depth - 1)
+                    base_ = self.eval(payload_[0], bound_, mod_, depth - 1)
+                    if base_[0] == 'U' and payload_[1] < len(base_[1]):
+                        return base_[1][payload_[1]]
             vals = module.assigns.get(e.id)
             tmod = module
             if not vals:
@@ -400,6 +419,32 @@ class GeoInterp:
                 if x in v[1]:
                     return ('N', Aff.const(v[1].index(x)))
                 return ('X', 'raise ValueError')
+        if f in ('min', 'max') and e.args and not kw:
+            # least / greatest of affine forms, decided by `<p>ymin <= <p>ymax`, `<p>xmin <=
+            # <p>xmax` (the invariant of every Area); an undecided order is outside the grammar
+            vals = [ev(a) for a in e.args]
+            if len(vals) == 1 and vals[0][0] == 'U':
+                vals = list(vals[0][1])
+            if vals and all(v[0] == 'N' for v in vals):
+                forms = [v[1] for v in vals]
+                for cand in forms:
+                    oks = [self._le(cand, o) if f == 'min' else self._le(o, cand) for o in forms]
+                    if all(x is True for x in oks):
+                        return ('N', cand)
+                raise AnalysisError(f'geometry expression: order of `{s}` not decided by the '
+                                    f'area invariants')
+        if f == 'zip' and len(e.args) == 1 and isinstance(e.args[0], ast.Starred) and not kw:
+            rows = self._iterable(ev(e.args[0].value))
+            if rows[0] == 'U' and rows[1] and all(r[0] == 'U' for r in rows[1]) and \
+                    len({len(r[1]) for r in rows[1]}) == 1:
+                n = len(rows[1][0][1])
+                return ('U', tuple(('U', tuple(r[1][i] for r in rows[1])) for i in range(n)))
+        if f == 'zip' and len(e.args) >= 2 and not kw and \
+                not any(isinstance(a, ast.Starred) for a in e.args):
+            cols = [self._iterable(ev(a)) for a in e.args]
+            if all(c[0] == 'U' for c in cols):
+                n = min(len(c[1]) for c in cols)
+                return ('U', tuple(('U', tuple(c[1][i] for c in cols)) for i in range(n)))
         if f == 'isinstance' and len(e.args) == 2:
             v = ev(e.args[0])
             t = e.args[1]
@@ -457,6 +502,47 @@ class GeoInterp:
             for k, v in kw.items():
                 bound[k] = ev(v)
             return self._call(r, bound, depth - 1)
+        # a method of a geometry class called on a geometry value (`pose.neighbor(d)`), or a
+        # static / class-level function of such a class (`Area.from_positions(..)`): interpreted
+        # like any other small pure function
+        if isinstance(e.func, ast.Attribute) and depth > 0 and \
+                not any(isinstance(a, ast.Starred) for a in e.args):
+            target = None
+            recv = None
+            if isinstance(e.func.value, ast.Name) and e.func.value.id in TAG.values():
+                c_ = self.gmod.classes.get(e.func.value.id)
+                target = self.index.method(c_, e.func.attr) if c_ is not None else None
+            else:
+                try:
+                    recv = ev(e.func.value)
+                except AnalysisError:
+                    recv = None
+                if recv is not None and recv[0] in TAG:
+                    c_ = self.gmod.classes.get(TAG[recv[0]])
+                    target = self.index.method(c_, e.func.attr) if c_ is not None else None
+                elif recv is not None and recv[0] == 'E':
+                    # a method of another enum of the package (`action.is_turn()`)
+                    c_ = self.index.find_class(recv[1].split('.')[-1])
+                    target = self.index.method(c_, e.func.attr) if c_ is not None else None
+            if target is not None and not target.is_property():
+                names = [a.arg for a in target.node.args.posonlyargs + target.node.args.args
+                         + target.node.args.kwonlyargs]
+                decos = {src(d) for d in target.node.decorator_list}
+                bound = {}
+                if 'staticmethod' in decos:
+                    pos_names = names
+                elif 'classmethod' in decos:
+                    pos_names = names[1:]
+                elif recv is not None:
+                    bound[names[0]] = recv
+                    pos_names = names[1:]
+                else:
+                    pos_names = None
+                if pos_names is not None and not (decos - {'staticmethod', 'classmethod'}):
+                    bound.update(zip(pos_names, [ev(a) for a in e.args]))
+                    for k, v in kw.items():
+                        bound[k] = ev(v)
+                    return self._call(target, bound, depth - 1)
         if not kw and not any(isinstance(a, ast.Starred) for a in e.args):
             fv = ev(e.func)
             if fv[0] in ('F', 'K'):
@@ -472,6 +558,28 @@ class GeoInterp:
                         pass
                 return ('C', fv[1], argv)
         raise AnalysisError(f'geometry expression outside the grammar: `{src(e)}`')
+
+    @staticmethod
+    def _le(a: Aff, b: Aff):
+        """a <= b under the invariants `<p>ymin <= <p>ymax`, `<p>xmin <= <p>xmax` of every area
+        symbol family: True / False when decided, None otherwise"""
+        def nonneg(d: Aff):
+            rest = dict(d.c)
+            for sym in list(rest):
+                if sym.endswith('max') and sym in rest:
+                    lo = sym[:-3] + 'min'
+                    k = rest.get(sym, 0)
+                    if k > 0 and rest.get(lo, 0) == -k:
+                        del rest[sym]
+                        del rest[lo]
+            return not rest and d.k >= 0
+        if nonneg(b - a):
+            return True
+        if nonneg(a - b) and (a - b).k > 0:
+            return False
+        if not (b - a).c:
+            return (b - a).k >= 0
+        return None
 
     def lookup(self, table, key, depth: int):
         """value of a dict literal at a key (the last of equal keys wins, as in Python)"""
@@ -593,16 +701,23 @@ class GeoInterp:
                     bound[p] = self.eval(d, {}, fn.module, depth)
                 except AnalysisError:
                     pass            # a default outside the grammar only matters if it is read
-        for e in w.events:
-            if e.kind in ('return', 'raise'):
-                if self.holds(strip_iter(e.guard), bound, fn.module, w, depth):
-                    if e.kind == 'raise':
-                        return ('X', 'raise ' + (src(e.value) if e.value is not None else ''))
-                    if e.value is None:
-                        return NONE
-                    return self.eval(self._expand_here(w, e.value, bound, fn.module, depth),
-                                     bound, fn.module, depth)
-        return NONE
+        if not hasattr(self, '_frames'):
+            self._frames = []
+        self._frames.append((w, bound, fn.module))
+        try:
+            for e in w.events:
+                if e.kind in ('return', 'raise'):
+                    if self.holds(strip_iter(e.guard), bound, fn.module, w, depth):
+                        if e.kind == 'raise':
+                            return ('X', 'raise ' + (src(e.value) if e.value is not None
+                                                     else ''))
+                        if e.value is None:
+                            return NONE
+                        return self.eval(self._expand_here(w, e.value, bound, fn.module, depth),
+                                         bound, fn.module, depth)
+            return NONE
+        finally:
+            self._frames.pop()
 
     def _expand_here(self, w: GuardWalk, e: ast.AST, bound, module, depth: int) -> ast.AST:
         """expansion of locals for the execution selected by the arguments: a local assigned
